@@ -27,75 +27,88 @@ func genC02(e *emitter, tier string, seed uint64) map[string]interface{} {
 	types := []string{"request", "response", "push"}
 	tnum := map[string]int{"request": 1, "response": 2, "push": 3}
 
-	// ---- encoder direction ----
+	// ---- encoder direction ---- (run before AND after the decoder batch: afterwards the pooled headers hold stale decoded content)
 	nEnc := 300
 	if thorough {
 		nEnc = 4000
 	}
 	lens := []int{0, 1, 2, 255, 256, 257, 300, 65535, 65536, 65537, 70000, 1 << 17}
-	for i := 0; i < nEnc; i++ {
-		version := 1 + rg.intn(2)
-		p := &pkt{version: version, typ: types[rg.intn(3)], cmd: uint32(rg.intn(256)), rid: uint32(rg.next()), to: uint16(rg.next()), st: uint8(rg.next()),
-			verify: rg.intn(2) == 0, body: genBody(rg, rg.pick(lens))}
-		if i%4 == 0 {
-			p.rid = []uint32{0, 1, 0xffffffff, 0x01020304, 0xff000000}[rg.intn(5)]
-			p.to = []uint16{0, 1, 0xffff, 0x0102, 0xff00}[rg.intn(5)]
-			p.st = []uint8{0, 1, 255}[rg.intn(3)]
-		}
-		if p.verify {
-			p.nonce, p.sig = rg.next(), rg.bytes(16)
-		}
-		if version == 2 && rg.intn(3) != 0 {
-			p.pairs = genPairs(rg, 1+rg.intn(5))
-			if rg.intn(6) == 0 { // metadata block >= 256 bytes so that swapped length bytes cannot hide
-				p.pairs = append(p.pairs, [2]item{{rep: true, b: 'z', n: 3}, {rep: true, b: 'y', n: 300 + rg.intn(30000)}})
+	dirty := false // second run: every Pack directly follows a decode of a frame with all flags and reserve bits set (stale pooled header)
+	encoderBatch := func(nEnc int) {
+		for i := 0; i < nEnc; i++ {
+			version := 1 + rg.intn(2)
+			if dirty {
+				df := specFrame{typ: 2, verify: 1, gzip: 0, reserve: 3, cmd: 255, rid: 0xffffffff, st: 255, body: []byte{1, 2, 3}, nonce: ^uint64(0), sig: bytes.Repeat([]byte{0xff}, 16)}
+				if version == 2 {
+					df.md = append(encStr([]byte("k")), encStr([]byte("v"))...)
+				}
+				proto(version).UnpackBytes(newCtx(version, protocol.CodecJSON), specEncode(version, df))
 			}
-			for mdSize(p.pairs) > 65535 && len(p.pairs) > 0 {
-				p.pairs = p.pairs[:len(p.pairs)-1]
+			p := &pkt{version: version, typ: types[rg.intn(3)], cmd: uint32(rg.intn(256)), rid: uint32(rg.next()), to: uint16(rg.next()), st: uint8(rg.next()),
+				verify: rg.intn(2) == 0, body: genBody(rg, rg.pick(lens))}
+			if i%4 == 0 {
+				p.rid = []uint32{0, 1, 0xffffffff, 0x01020304, 0xff000000}[rg.intn(5)]
+				p.to = []uint16{0, 1, 0xffff, 0x0102, 0xff00}[rg.intn(5)]
+				p.st = []uint8{0, 1, 255}[rg.intn(3)]
+			}
+			if p.verify {
+				p.nonce, p.sig = rg.next(), rg.bytes(16)
+			}
+			if version == 2 && rg.intn(3) != 0 {
+				p.pairs = genPairs(rg, 1+rg.intn(5))
+				if rg.intn(6) == 0 { // metadata block >= 256 bytes so that swapped length bytes cannot hide
+					p.pairs = append(p.pairs, [2]item{{rep: true, b: 'z', n: 3}, {rep: true, b: 'y', n: 300 + rg.intn(30000)}})
+				}
+				for mdSize(p.pairs) > 65535 && len(p.pairs) > 0 {
+					p.pairs = p.pairs[:len(p.pairs)-1]
+				}
+			}
+			thr := []int{0, 0, 1, 1024}[rg.intn(4)]
+			orig := p.body.bytes()
+			pk := p.build(protocol.CodecProtobuf)
+			frame, err := proto(version).Pack(newCtx(version, protocol.CodecProtobuf), pk, protocol.GzipSize(thr))
+			if err != nil {
+				continue
+			}
+			engaged := thr != 0 && len(orig) >= thr
+			gz := ""
+			if engaged {
+				gz = hexSpec(pk.Body).String()
+			}
+			g := 0
+			if pk.Metadata.Gzip {
+				g = 1
+			}
+			e.op(p.packLine(thr, gz), fmt.Sprintf("ok %s gzip=%d", showBytes(frame), g), "encoder/pack", true)
+			// the frame the layout prescribes for this packet (wire body = pk.Body, metadata block = the code's own block)
+			var md []byte
+			if version == 2 {
+				md = (&protocol.Metadata{Values: pk.Metadata.Values}).MarshalValues(65535)
+			}
+			v := 0
+			if p.verify {
+				v = 1
+			}
+			sf := specFrame{typ: tnum[p.typ], verify: v, gzip: g, reserve: 0, cmd: int(p.cmd), rid: p.rid, to: p.to, st: p.st, md: md, body: pk.Body, nonce: p.nonce, sig: p.sig}
+			want := specEncode(version, sf)
+			bodySpec := hexSpec(pk.Body)
+			if !engaged {
+				bodySpec = p.body
+			}
+			// result = the real code's bytes; the driver computes Spec.encode: equality is "Go bytes = Lean spec bytes"
+			idx := e.op(sf.line(version, bodySpec), showBytes(frame), "encoder/spec", true)
+			if !bytes.Equal(frame, want) {
+				d := 0
+				for d < len(frame) && d < len(want) && frame[d] == want[d] {
+					d++
+				}
+				e.fail(idx, fmt.Sprintf("pack_conforms:v%d%s", version, kindOf(p)), fmt.Sprintf("Pack differs from the layout at byte %d (len %d vs %d)", d, len(frame), len(want)))
 			}
 		}
-		thr := []int{0, 0, 1, 1024}[rg.intn(4)]
-		orig := p.body.bytes()
-		pk := p.build(protocol.CodecProtobuf)
-		frame, err := proto(version).Pack(newCtx(version, protocol.CodecProtobuf), pk, protocol.GzipSize(thr))
-		if err != nil {
-			continue
-		}
-		engaged := thr != 0 && len(orig) >= thr
-		gz := ""
-		if engaged {
-			gz = hexSpec(pk.Body).String()
-		}
-		g := 0
-		if pk.Metadata.Gzip {
-			g = 1
-		}
-		e.op(p.packLine(thr, gz), fmt.Sprintf("ok %s gzip=%d", showBytes(frame), g), "encoder/pack", true)
-		// the frame the layout prescribes for this packet (wire body = pk.Body, metadata block = the code's own block)
-		var md []byte
-		if version == 2 {
-			md = (&protocol.Metadata{Values: pk.Metadata.Values}).MarshalValues(65535)
-		}
-		v := 0
-		if p.verify {
-			v = 1
-		}
-		sf := specFrame{typ: tnum[p.typ], verify: v, gzip: g, reserve: 0, cmd: int(p.cmd), rid: p.rid, to: p.to, st: p.st, md: md, body: pk.Body, nonce: p.nonce, sig: p.sig}
-		want := specEncode(version, sf)
-		bodySpec := hexSpec(pk.Body)
-		if !engaged {
-			bodySpec = p.body
-		}
-		// result = the real code's bytes; the driver computes Spec.encode: equality is "Go bytes = Lean spec bytes"
-		idx := e.op(sf.line(version, bodySpec), showBytes(frame), "encoder/spec", true)
-		if !bytes.Equal(frame, want) {
-			d := 0
-			for d < len(frame) && d < len(want) && frame[d] == want[d] {
-				d++
-			}
-			e.fail(idx, fmt.Sprintf("pack_conforms:v%d%s", version, kindOf(p)), fmt.Sprintf("Pack differs from the layout at byte %d (len %d vs %d)", d, len(frame), len(want)))
-		}
+
 	}
+	encoderBatch(nEnc)
+	defer func() { dirty = true; encoderBatch(nEnc / 3) }()
 
 	// ---- decoder direction ----
 	u32s := []uint32{0, 1, 0xff, 0x100, 0xffff, 0x10000, 0x01020304, 0x7fffffff, 0x80000000, 0xffffffff}
